@@ -154,8 +154,8 @@ func runNameCase(nc nameCase, t sigType, via pathKind, tmp string, verbose bool)
 		return
 	}
 	obs, xerr := extract(t.Extract, artifact, content)
-	if xerr != nil {
-		harnessError("%s: artifact emitted but the harness cannot read it: %v", label, xerr)
+	if xerr != nil && !unreadable(xerr) {
+		harnessError("%s: artifact emitted but the harness cannot open it: %v", label, xerr)
 		return
 	}
 	clean := true
@@ -170,6 +170,10 @@ func runNameCase(nc nameCase, t sigType, via pathKind, tmp string, verbose bool)
 			return
 		}
 		run.Violation(key, label+": "+desc, replay())
+	}
+	if xerr != nil {
+		// see runCase: success reported and no signature the independent reader can parse
+		viol("emitted-artifact-without-readable-signature", fmt.Sprintf("relic reported success and wrote an artifact in which the independent reader finds no signature it can parse (%v)", xerr))
 	}
 	for _, o := range obs {
 		res.Obs = append(res.Obs, describe(o))
